@@ -44,7 +44,7 @@ func (m *Mutex) Lock() {
 	if S.killed {
 		runtime.Goexit()
 	}
-	block(func() bool { return !m.locked })
+	blockOp("Mutex.Lock", func() bool { return !m.locked })
 	m.locked = true
 }
 
@@ -85,7 +85,7 @@ func (m *RWMutex) Lock() {
 	if S.killed {
 		runtime.Goexit()
 	}
-	block(func() bool { return !m.w && m.r == 0 })
+	blockOp("RWMutex.Lock", func() bool { return !m.w && m.r == 0 })
 	m.w = true
 }
 func (m *RWMutex) Unlock() {
@@ -107,7 +107,7 @@ func (m *RWMutex) RLock() {
 	if S.killed {
 		runtime.Goexit()
 	}
-	block(func() bool { return !m.w })
+	blockOp("RWMutex.RLock", func() bool { return !m.w })
 	m.r++
 }
 func (m *RWMutex) RUnlock() {
@@ -147,7 +147,7 @@ func (c *Cond) Wait() {
 	default:
 		panic("vs: Cond with foreign Locker")
 	}
-	block(func() bool { return *sig })
+	blockOp("Cond.Wait", func() bool { return *sig })
 	c.L.Lock()
 }
 
@@ -200,7 +200,7 @@ func (w *WaitGroup) Wait() {
 	if S.killed {
 		runtime.Goexit()
 	}
-	block(func() bool { return w.n == 0 })
+	blockOp("WaitGroup.Wait", func() bool { return w.n == 0 })
 }
 
 // Once: the function runs under the once's internal lock, like the real one (a second caller waits for completion).
@@ -220,7 +220,7 @@ func (o *Once) Do(f func()) {
 	if S.killed {
 		runtime.Goexit()
 	}
-	block(func() bool { return !o.running })
+	blockOp("Once.Do", func() bool { return !o.running })
 	if o.done {
 		return
 	}
